@@ -44,13 +44,24 @@ use zeroize::Zeroize;
 /// Unlike many other heap-allocated big integer libraries, this type is not
 /// arbitrary precision and will wrap at its fixed-precision rather than
 /// automatically growing.
-#[allow(clippy::derived_hash_with_manual_eq)]
-#[derive(Clone, Hash)]
+#[derive(Clone)]
 pub struct BoxedUint {
     /// Boxed slice containing limbs.
     ///
     /// Stored from least significant to most significant.
     pub(crate) limbs: Box<[Limb]>,
+}
+
+impl core::hash::Hash for BoxedUint {
+    fn hash<H: core::hash::Hasher>(&self, state: &mut H) {
+        // `Eq` compares values zero-padded to a common precision, so high zero limbs must not
+        // contribute to the hash: equal values have to hash equally.
+        let mut len = self.limbs.len();
+        while len > 0 && self.limbs[len - 1].0 == 0 {
+            len -= 1;
+        }
+        self.limbs[..len].hash(state);
+    }
 }
 
 impl BoxedUint {
